@@ -23,10 +23,10 @@ NodeOf(i, ino) == IF ino = Runs[i].topino THEN 0
                   ELSE IF \E n \in 1 .. Len(Runs[i].snapshot) : Runs[i].snapshot[n].ino = ino
                        THEN CHOOSE n \in 1 .. Len(Runs[i].snapshot) : Runs[i].snapshot[n].ino = ino ELSE -1
 
-Load(i) == /\ w' = Runs[i].world /\ root' = Runs[i].root /\ win' = <<0, 0>> /\ dfs' = Runs[i].dfs /\ follow' = Runs[i].follow
+Load(i) == /\ w' = Runs[i].world /\ root' = Runs[i].root /\ win' = <<Runs[i].min, Runs[i].max>> /\ dfs' = Runs[i].dfs /\ follow' = Runs[i].follow
            /\ stack' = <<>> /\ queue' = <<>> /\ visited' = {} /\ vdirs' = {} /\ entered' = <<>> /\ out' = <<>> /\ pc' = "start"
 TInit == /\ ti = 1 /\ tl = 1
-         /\ w = Runs[1].world /\ root = Runs[1].root /\ win = <<0, 0>> /\ dfs = Runs[1].dfs /\ follow = Runs[1].follow
+         /\ w = Runs[1].world /\ root = Runs[1].root /\ win = <<Runs[1].min, Runs[1].max>> /\ dfs = Runs[1].dfs /\ follow = Runs[1].follow
          /\ stack = <<>> /\ queue = <<>> /\ visited = {} /\ vdirs = {} /\ entered = <<>> /\ out = <<>> /\ pc = "start"
 
 Step(ev) ==
